@@ -1,7 +1,496 @@
 package storesim
 
-import "verif/harness/simkit"
+import (
+	"bytes"
+	"fmt"
+	"sort"
+	"strings"
+	"time"
+
+	"github.com/anishathalye/porcupine"
+	"github.com/btcsuite/btcd/database"
+	"github.com/btcsuite/btcd/database/ffldb"
+
+	"verif/harness/simfs"
+	"verif/harness/simkit"
+)
+
+// Oracle 4: snapshot isolation.  One writer commits versions of a small key
+// set (and stores one block per version) while R readers hold View / read-only
+// Begin snapshots.  Every goroutine waits for its turn on a harness channel
+// between its own steps, so the interleaving is chosen by the Chooser and is
+// replayable.  No step of this workload can block on another actor: there is
+// one writer, readers never wait for it, and nobody closes the store.
+
+type isoActor struct {
+	name string
+	turn chan struct{}
+	done chan isoDone
+}
+
+type isoDone struct {
+	fin bool
+	p   any // a panic raised on the actor's goroutine (re-raised on the driver)
+}
+
+type isoOp struct {
+	write   bool
+	version int
+	call    int
+	ret     int
+	client  int
+}
+
+type isoWorld struct {
+	r        *simkit.Run
+	db       database.DB
+	wl       *workload
+	keys     []string
+	nVers    int
+	aborted  map[int]bool
+	commitV  int // last committed version (writer's commit step finished)
+	ops      []isoOp
+	bucket   []byte
+	storeAt  map[int]int // version -> block index stored in it
+}
+
+// expected returns the key -> value map of version v.
+func (w *isoWorld) expected(v int) map[string]string {
+	m := map[string]string{}
+	if v == 0 {
+		return m
+	}
+	for j, k := range w.keys {
+		if j > 0 && (v+j)%4 == 0 {
+			continue // deleted in this version
+		}
+		m[k] = fmt.Sprintf("ver%d-%s", v, k)
+	}
+	return m
+}
+
+func (w *isoWorld) blocksAt(v int) []int {
+	var out []int
+	for ver, b := range w.storeAt {
+		if ver <= v {
+			out = append(out, b)
+		}
+	}
+	sort.Ints(out)
+	return out
+}
+
+func encMap(m map[string]string) string {
+	ks := make([]string, 0, len(m))
+	for k := range m {
+		ks = append(ks, k)
+	}
+	sort.Strings(ks)
+	var sb strings.Builder
+	for _, k := range ks {
+		sb.WriteString(k + "=" + m[k] + " ")
+	}
+	return sb.String()
+}
+
+// versionOf finds the version whose expected content equals the observation.
+func (w *isoWorld) versionOf(obs map[string]string) int {
+	e := encMap(obs)
+	for v := 0; v <= w.nVers; v++ {
+		if encMap(w.expected(v)) == e {
+			return v
+		}
+	}
+	return -1
+}
+
+// readAll observes the key set through one of several access paths.
+func (w *isoWorld) readAll(tx database.Tx, how int) (map[string]string, string) {
+	b := tx.Metadata().Bucket(w.bucket)
+	obs := map[string]string{}
+	if b == nil {
+		return obs, "nobucket"
+	}
+	switch how {
+	case 0:
+		for _, k := range w.keys {
+			if v := b.Get([]byte(k)); v != nil {
+				obs[k] = string(v)
+			}
+		}
+		return obs, "get"
+	case 1:
+		c := b.Cursor()
+		for ok := c.First(); ok; ok = c.Next() {
+			obs[string(c.Key())] = string(c.Value())
+		}
+		return obs, "cursor-fwd"
+	case 2:
+		c := b.Cursor()
+		var order []string
+		for ok := c.Last(); ok; ok = c.Prev() {
+			obs[string(c.Key())] = string(c.Value())
+			order = append(order, string(c.Key()))
+		}
+		if !sort.SliceIsSorted(order, func(i, j int) bool { return order[i] > order[j] }) {
+			w.r.Violate(prop, "cursor-order", "", "backward cursor walk out of byte order: %v", order)
+		}
+		return obs, "cursor-back"
+	default:
+		var order []string
+		_ = b.ForEach(func(k, v []byte) error {
+			obs[string(k)] = string(v)
+			order = append(order, string(k))
+			return nil
+		})
+		if !sort.StringsAreSorted(order) {
+			w.r.Violate(prop, "cursor-order", "", "ForEach out of byte order: %v", order)
+		}
+		return obs, "foreach"
+	}
+}
+
+// readBlocks observes which version blocks exist and checks their bytes.
+func (w *isoWorld) readBlocks(tx database.Tx) []int {
+	var have []int
+	oks, err := tx.HasBlocks(w.wl.hashes)
+	if err != nil {
+		w.r.Violate(prop, "isolation", "", "HasBlocks failed in a reader: %v", err)
+	}
+	for i, ok := range oks {
+		if !ok {
+			continue
+		}
+		have = append(have, i)
+		b, err := tx.FetchBlock(&w.wl.hashes[i])
+		if err != nil || !bytes.Equal(b, w.wl.raw[i]) {
+			w.r.Violate(prop, "byte-fidelity", "", "reader fetched block %d: err=%v equal=%v", i, err, bytes.Equal(b, w.wl.raw[i]))
+		}
+	}
+	return have
+}
 
 func runIsolation(r *simkit.Run) {
-	r.Event("iso", "not implemented yet")
+	c := r.C
+	wl := genWorkload(simkit.NewReplayChooser(nil), 5) // fixed tiny block universe: all-zero choices
+	// knobs that make commits flush while readers hold snapshots
+	switch simkit.Pick(c, "iso-cache", 2, 3, 3) {
+	case 0:
+		wl.cacheMax = 100 << 20
+	case 1:
+		wl.cacheMax = 0
+	default:
+		wl.cacheMax = uint64(100 + c.Intn(600, "iso-cache-size"))
+	}
+	wl.flushSecs = uint32(2 + c.Intn(30, "iso-flush-secs"))
+	if c.Bool(500, "iso-smallfiles") {
+		wl.maxFile = uint32(len(wl.raw[0]) + 12 + c.Intn(300, "iso-file"))
+	} else {
+		wl.maxFile = 1 << 20
+	}
+	r.Meta["cache"] = fmt.Sprint(wl.cacheMax)
+
+	fs := simfs.New()
+	ffldb.SetVerifFS(fs.FFLDB(simfs.DeterministicLevelDB))
+	db, err := database.Create("ffldb", dbPath, netID)
+	if err != nil {
+		panic("storesim: create: " + err.Error())
+	}
+	aborted := false
+	defer func() {
+		if !aborted { // after an abort transactions are left open: Close would wait for them
+			_ = db.Close()
+		}
+		ffldb.VerifForget(db)
+	}()
+	ffldb.VerifSetCacheParams(db, wl.cacheMax, wl.flushSecs)
+	ffldb.VerifSetMaxBlockFileSize(db, wl.maxFile)
+
+	w := &isoWorld{r: r, db: db, wl: wl, aborted: map[int]bool{}, bucket: []byte("iso"), storeAt: map[int]int{}}
+	nk := simkit.Range(c, 2, 5, "iso-keys")
+	for j := 0; j < nk; j++ {
+		w.keys = append(w.keys, fmt.Sprintf("k%d", j))
+	}
+	w.nVers = simkit.Range(c, 2, 8, "iso-versions")
+	nReaders := simkit.Range(c, 1, 3, "iso-readers")
+	if err := db.Update(func(tx database.Tx) error {
+		_, err := tx.Metadata().CreateBucket(w.bucket)
+		return err
+	}); err != nil {
+		panic("storesim: iso setup: " + err.Error())
+	}
+	nextBlock := 0
+
+	var actors []*isoActor
+	newActor := func(name string, body func(yield func())) {
+		a := &isoActor{name: name, turn: make(chan struct{}), done: make(chan isoDone)}
+		actors = append(actors, a)
+		go func() {
+			defer func() {
+				if p := recover(); p != nil {
+					a.done <- isoDone{fin: true, p: p}
+				}
+			}()
+			<-a.turn
+			body(func() { a.done <- isoDone{}; <-a.turn })
+			a.done <- isoDone{fin: true}
+		}()
+	}
+
+	// the writer
+	type wplan struct {
+		abort  bool
+		split  int // puts before an extra yield
+		manual bool
+		block  bool
+	}
+	plans := make([]wplan, w.nVers+1)
+	for v := 1; v <= w.nVers; v++ {
+		plans[v] = wplan{abort: c.Bool(150, "iso-abort"), split: c.Intn(nk+1, "iso-split"), manual: c.Bool(500, "iso-manual"),
+			block: c.Bool(600, "iso-block")}
+	}
+	newActor("writer", func(yield func()) {
+		first := true
+		for v := 1; v <= w.nVers; v++ {
+			p := plans[v]
+			if !first {
+				yield()
+			}
+			first = false
+			call := r.Event("w-begin", "version %d abort=%v", v, p.abort)
+			body := func(tx database.Tx) error {
+				b := tx.Metadata().Bucket(w.bucket)
+				exp := w.expected(v)
+				for j, k := range w.keys {
+					if j == p.split {
+						yield() // readers run while the transaction has pending keys
+					}
+					val, ok := exp[k]
+					if p.abort {
+						val, ok = fmt.Sprintf("aborted%d-%s", v, k), true
+					}
+					var err error
+					if ok {
+						err = b.Put([]byte(k), []byte(val))
+					} else {
+						err = b.Delete([]byte(k))
+					}
+					if err != nil {
+						return err
+					}
+				}
+				if p.block && nextBlock < len(wl.blocks) && !p.abort {
+					if err := tx.StoreBlock(wl.blocks[nextBlock]); err != nil {
+						return err
+					}
+				}
+				yield() // before the commit
+				if p.abort {
+					return errFn
+				}
+				return nil
+			}
+			var err error
+			if p.manual {
+				var tx database.Tx
+				tx, err = db.Begin(true)
+				if err == nil {
+					if err = body(tx); err != nil {
+						_ = tx.Rollback()
+					} else {
+						err = tx.Commit()
+					}
+				}
+			} else {
+				err = db.Update(body)
+			}
+			if p.abort {
+				if err != errFn {
+					r.Violate(prop, "isolation", "", "aborted writer transaction returned %v", err)
+				}
+				r.Event("w-abort", "version %d", v)
+				w.aborted[v] = true
+				// an aborted version never becomes visible: re-commit it for real next
+				p2 := p
+				p2.abort = false
+				plans[v] = p2
+				v--
+				continue
+			}
+			if err != nil {
+				r.Violate(prop, "isolation", "", "writer commit of version %d failed: %v", v, err)
+			}
+			if p.block && nextBlock < len(wl.blocks) {
+				w.storeAt[v] = nextBlock
+				nextBlock++
+			}
+			w.commitV = v
+			ret := r.Event("w-commit", "version %d", v)
+			w.ops = append(w.ops, isoOp{write: true, version: v, call: call, ret: ret, client: 0})
+		}
+	})
+
+	// the readers
+	for ri := 0; ri < nReaders; ri++ {
+		ri := ri
+		nSnaps := simkit.Range(c, 1, 5, "iso-snaps")
+		type rplan struct {
+			managed bool
+			reads   []int
+		}
+		var rp []rplan
+		for s := 0; s < nSnaps; s++ {
+			p := rplan{managed: c.Bool(500, "iso-view")}
+			for n := simkit.Range(c, 1, 4, "iso-reads"); n > 0; n-- {
+				p.reads = append(p.reads, c.Intn(5, "iso-read-kind"))
+			}
+			rp = append(rp, p)
+		}
+		newActor(fmt.Sprintf("reader%d", ri), func(yield func()) {
+			for si, p := range rp {
+				if si > 0 {
+					yield()
+				}
+				call := r.Event("r-begin", "reader %d snapshot %d", ri, si)
+				atBegin := -1
+				body := func(tx database.Tx) error {
+					atBegin = w.commitV // Begin returned: the snapshot is this version
+					seen := -1
+					for i, how := range p.reads {
+						if i > 0 {
+							yield() // the writer may commit (and flush) in between
+						}
+						var v int
+						var via string
+						if how == 4 {
+							have := w.readBlocks(tx)
+							via = "blocks"
+							v = -2
+							for cand := 0; cand <= w.nVers; cand++ {
+								if fmt.Sprint(w.blocksAt(cand)) == fmt.Sprint(have) && cand == atBegin {
+									v = cand
+								}
+							}
+							if v == -2 {
+								r.Violate(prop, "isolation", "", "reader %d snapshot taken at version %d sees blocks %v, expected %v",
+									ri, atBegin, have, w.blocksAt(atBegin))
+							}
+						} else {
+							obs, name := w.readAll(tx, how)
+							via = name
+							v = w.versionOf(obs)
+							if v < 0 {
+								r.Violate(prop, "isolation", "", "reader %d (%s) sees a mixture, no committed version: {%s} (snapshot taken at version %d)",
+									ri, name, encMap(obs), atBegin)
+							}
+						}
+						r.Event("r-read", "reader %d snap %d via %s -> version %d (store at %d)", ri, si, via, v, w.commitV)
+						if v != atBegin {
+							r.Violate(prop, "isolation", "", "reader %d snapshot taken at version %d reads version %d via %s (store now at %d)",
+								ri, atBegin, v, via, w.commitV)
+						}
+						if seen >= 0 && v != seen {
+							r.Violate(prop, "isolation", "", "reader %d snapshot changed from version %d to %d", ri, seen, v)
+						}
+						seen = v
+						if w.commitV > atBegin {
+							r.Probe("snapshot_read_after_later_commit")
+						}
+					}
+					return nil
+				}
+				var err error
+				if p.managed {
+					err = db.View(body)
+				} else {
+					var tx database.Tx
+					tx, err = db.Begin(false)
+					if err == nil {
+						err = body(tx)
+						_ = tx.Rollback()
+					}
+				}
+				if err != nil {
+					r.Violate(prop, "isolation", "", "reader %d: %v", ri, err)
+				}
+				ret := r.Event("r-end", "reader %d snapshot %d = version %d", ri, si, atBegin)
+				w.ops = append(w.ops, isoOp{write: false, version: atBegin, call: call, ret: ret, client: 1 + ri})
+			}
+		})
+	}
+
+	// the scheduler: one actor step at a time, chosen by the Chooser; sometimes
+	// the clock moves between steps (flush interval)
+	alive := append([]*isoActor(nil), actors...)
+	steps := 0
+	for len(alive) > 0 {
+		i := c.Intn(len(alive), "iso-sched")
+		a := alive[i]
+		a.turn <- struct{}{}
+		d := <-a.done
+		if d.p != nil {
+			aborted = true
+			panic(d.p)
+		}
+		if d.fin {
+			alive = append(alive[:i], alive[i+1:]...)
+		}
+		steps++
+		if c.Bool(120, "iso-advance") {
+			time.Sleep(time.Duration(1+c.Intn(40, "iso-adv-s")) * time.Second)
+		}
+		if steps > 2000 {
+			panic("storesim: isolation scheduler did not terminate")
+		}
+	}
+	r.Count("iso_steps", steps)
+
+	// final state == last version
+	err = db.View(func(tx database.Tx) error {
+		obs, _ := w.readAll(tx, 0)
+		if v := w.versionOf(obs); v != w.nVers {
+			r.Violate(prop, "isolation", "", "final state is version %d, expected %d: {%s}", v, w.nVers, encMap(obs))
+		}
+		return nil
+	})
+	if err != nil {
+		r.Violate(prop, "isolation", "", "final view: %v", err)
+	}
+
+	// porcupine: the history of writer transactions and reader snapshots must
+	// be linearizable against a single versioned register
+	model := porcupine.Model{
+		Init: func() interface{} { return 0 },
+		Step: func(state, input, output interface{}) (bool, interface{}) {
+			in := input.(isoOp)
+			if in.write {
+				return true, in.version
+			}
+			return output.(int) == state.(int), state
+		},
+		Equal: func(a, b interface{}) bool { return a.(int) == b.(int) },
+	}
+	var hist []porcupine.Operation
+	for _, o := range w.ops {
+		hist = append(hist, porcupine.Operation{ClientId: o.client, Input: o, Call: int64(o.call), Output: o.version, Return: int64(o.ret)})
+	}
+	if len(hist) > 40 {
+		hist = hist[:40]
+	}
+	res := porcupine.CheckOperationsTimeout(model, hist, 30*time.Second)
+	switch res {
+	case porcupine.Ok:
+		r.Count("porcupine_ok", 1)
+	case porcupine.Illegal:
+		r.Count("porcupine_illegal", 1)
+		r.Violate(prop, "isolation-porcupine", "", "history of %d operations is not linearizable against the versioned register: %+v", len(hist), w.ops)
+	default:
+		r.Count("porcupine_unknown", 1)
+	}
+	r.Event("iso", "ops=%d porcupine=%v flushes=%d", len(hist), res, ffldb.VerifFlushCount(db))
+	r.Sig(fmt.Sprintf("iso:r%d,v%s,c%s", nReaders, classN(w.nVers), classN(int(wl.cacheMax/200))))
+	r.State("iso readers=%d versions=%d flushes=%s", nReaders, w.nVers, classN(int(ffldb.VerifFlushCount(db))))
+	if w.commitV >= 1 {
+		r.NonTrivial()
+	}
 }
